@@ -361,6 +361,8 @@ FrameClauses(dec, rgs, lfs, cobj, fe, multi) ==
                    \* "that signed difference": a typical one - at least half of the differences are not above it, at least half not below
                    \cup (IF 2 * le >= n - 1 /\ 2 * ge >= n - 1 THEN {} ELSE {"C13.SpacingValue"})
                    ELSE {})
+             \* a single row has no consecutive differences: no SPACING can be "that signed difference"
+             \cup (IF ~uSpc /\ ~spc.absent /\ n = 1 THEN {"C13.SpacingOnlyIfUniform"} ELSE {})
              \cup (IF ~uSpc /\ ~uDir /\ spc.absent /\ n >= 2
                    THEN (IF (\A i \in 1..(n - 1) : d[i] > 0) /\ OneStr(dir) # sINCREASING THEN {"C13.Direction"} ELSE {})
                    \cup (IF (\A i \in 1..(n - 1) : d[i] < 0) /\ OneStr(dir) # sDECREASING THEN {"C13.Direction"} ELSE {})
